@@ -28,7 +28,7 @@ from mc.ref import tlv_strict as ts
 from mc.ref import ndn_strict as ns
 from mc.ndnenv import Counter32
 from checks import c01, c06
-import ndn.utils as ndn_utils
+from mc.ndnenv import owned_env, FixedClock
 
 PROPERTY = 'C02'
 
@@ -376,20 +376,8 @@ def unit(arg):
     acc = Acc()
     acc.state_hashes = None
     case = list(base_cases(arg['tier']))[arg['idx']]
-    old = ndn_utils.randint
-    old_t = ndn_utils.time
-
-    class T:
-        @staticmethod
-        def time():
-            return 1_700_000_000.0
-    ndn_utils.randint = Counter32(2).randint
-    ndn_utils.time = T
-    try:
+    with owned_env(clock=FixedClock(), seed=2):
         viol = check_tamper(case, arg['tier'], acc)
-    finally:
-        ndn_utils.randint = old
-        ndn_utils.time = old_t
     acc.evaluations += 1
     acc.state_count = acc.evaluations
     acc.observe([case, sorted(acc.outcomes.items()), sorted({v[0] for v in viol})])
